@@ -409,20 +409,52 @@ pub fn space_seq(scan: &Scan) -> u64 {
 }
 
 // ---------------------------------------------------------------------------------------------
-// once-per-signature reporting: a defect that the generated workload reaches in most cases
-// would otherwise stop the whole exploration after five reports; every occurrence is counted.
+// once-per-signature reporting. A defect that the generated workload reaches in most cases
+// would otherwise (a) flood the report and (b) trip `Run::parallel`'s stop-after-five rule and end
+// the exploration early. Every occurrence is counted under `hits:<signature>`; the first one per
+// signature is kept (with section + case so that `--replay` works) and handed to the `Run` by
+// `drain_reports` once all sections are done.
 
-static REPORTED: OnceLock<Mutex<BTreeSet<String>>> = OnceLock::new();
+static REPORTED: OnceLock<Mutex<BTreeMap<String, Value>>> = OnceLock::new();
+
+thread_local! {
+    static CURRENT_CASE: std::cell::RefCell<(String, u64)> = const { std::cell::RefCell::new((String::new(), 0)) };
+}
+
+/// Names the section / case the calling thread is running (for the replay coordinates).
+pub fn set_case(section: &str, case: u64) {
+    CURRENT_CASE.with(|c| *c.borrow_mut() = (section.to_string(), case));
+}
 
 pub fn report_once(st: &mut vcore::Stats, sig: &str, detail: impl FnOnce() -> Value) {
     st.count(&format!("hits:{sig}"));
-    let first = REPORTED
-        .get_or_init(|| Mutex::new(BTreeSet::new()))
+    let mut map = REPORTED
+        .get_or_init(|| Mutex::new(BTreeMap::new()))
         .lock()
-        .unwrap()
-        .insert(sig.to_string());
-    if first {
-        st.violation(sig.to_string(), detail());
+        .unwrap();
+    if !map.contains_key(sig) {
+        let (section, case) = CURRENT_CASE.with(|c| c.borrow().clone());
+        let mut d = detail();
+        if let Some(m) = d.as_object_mut() {
+            m.insert("section".into(), json!(section));
+            m.insert("case".into(), json!(case));
+        } else {
+            d = json!({"section": section, "case": case, "detail": d});
+        }
+        map.insert(sig.to_string(), d);
+    }
+}
+
+/// Moves the kept first occurrences into the run (call after the last section).
+pub fn drain_reports(run: &mut vcore::Run) {
+    let map = std::mem::take(
+        &mut *REPORTED
+            .get_or_init(|| Mutex::new(BTreeMap::new()))
+            .lock()
+            .unwrap(),
+    );
+    for (sig, detail) in map {
+        run.stats.violation(sig, detail);
     }
 }
 
